@@ -94,7 +94,7 @@ def build_pool(seed, d):
     for mn, op in itertools.product(flagvals, flagvals):
         for inp, iname in ((la, "a"), (lb, "b")):
             add(f"flags mn={mn} op={op} on {iname}", jasm_io.make_doc(["mov", {"push": ["rb"]}] if iname == "b" else [{"push": ["rb"]}, "mov"], mn, op), inp, {"mn": mn, "op": op})
-    for rng in (None, {"min": "401000", "max": "401fff"}, {"min": "0x10", "max": "0x2f"}):
+    for rng in (None, {"min": "401000", "max": "401fff"}, {"min": "0x10", "max": "0x2f"}, {"min": "402000", "max": "401000"}):
         for rule in ([{"call": ["valid_addr"]}], [{"jmp": ["valid_addr"]}], [{"call": ["4"]}], [{"jmp": ["2000"]}]):
             for inp in (la, lb):
                 add(f"range {rng}", jasm_io.make_doc(rule, config={"valid_addr_range": rng} if rng else None), inp, {"range": json.dumps(rng) if rng else None}, mode=("list", "all", True))
@@ -104,6 +104,12 @@ def build_pool(seed, d):
     for style in (None, "att", "intel"):
         add(f"style {style}", jasm_io.make_doc(["push"], config={"style": style} if style else None), bn, {"style": style}, binary=True)
         add(f"style {style} asm", jasm_io.make_doc(["ret"], config={"style": style} if style else None), la, {"style": style})
+    for style in ("att", "intel"):
+        for secs in ([".text"], [".text.hot"]):
+            add(f"style {style} + sections {secs}", jasm_io.make_doc(["push"], config={"style": style, "sections": secs}), bn, {"style": style, "sections": json.dumps(secs)}, binary=True, mode=("list", "all", True))
+    # rule text written by hand: unquoted hexadecimal scalars (YAML reads them as integers)
+    add("unquoted hex operand", None, la, {"yaml": "hex"}, raw="pattern:\n  - movl: [0x10]\n", mode=("list", "all", True))
+    add("unquoted hex deref", None, la, {"yaml": "hex"}, raw="pattern:\n  - lea:\n    - $deref:\n        main_reg: rax\n        constant_offset: 0x8\n", mode=("list", "all", True))
     add("captures 1", jasm_io.make_doc([{"push": ["&x"]}, {"pop": ["&x"]}]), la, {"captures": 1}, mode=("list", "all", False))
     add("captures 1b", jasm_io.make_doc([{"push": ["&r"]}, {"push": ["&r"]}]), lb, {"captures": 1}, mode=("list", "all", False))
     add("captures 3", jasm_io.make_doc([{"push": ["&a"]}, {"pop": ["&a"]}, {"add": ["&b", "&c"]}, "ret"]), la, {"captures": 3}, mode=("list", "all", False))
@@ -435,8 +441,19 @@ def step_content(slot, v):
         nm = "@lib_" + slot
         return jasm_io.dump_yaml({"macros": [{"name": nm, "pattern": [{"$and": ["@inner_", tail]}]}, {"name": "@any_" + slot, "pattern": ["[^,|]{1,50}", "[^,|]{2,50}"][b % 2]}]})
     # rules: template a, parameters b, c
-    t = a % 9
+    t = a % 12
     flag = [None, False, True]
+    if t == 9:
+        style = [None, "att", "intel"][b % 3]
+        secs = [None, [".text"], [".text.hot"], [".text.hot", ".text"]][c % 4]
+        cfg = {k_: v_ for k_, v_ in (("style", style), ("sections", secs)) if v_}
+        return jasm_io.dump_yaml(jasm_io.make_doc(["push"], config=cfg or None))
+    if t == 10:
+        # hand-written rule text with unquoted hexadecimal scalars (YAML reads them as integers)
+        return ["pattern:\n  - movl: [0x10]\n", "pattern:\n  - lea:\n    - $deref:\n        main_reg: rax\n        constant_offset: 0x8\n", "pattern:\n  - call: [0x401020]\n"][b % 3]
+    if t == 11:
+        rng = [{"min": "402000", "max": "401000"}, {"min": "0x40ffff", "max": "0x401000"}, {"min": "401020", "max": "401020"}][b % 3]
+        return jasm_io.dump_yaml(jasm_io.make_doc([{"call": [["valid_addr", "4010", "40"][c % 3]]}], config={"valid_addr_range": rng}))
     if t == 0:
         return jasm_io.dump_yaml(jasm_io.make_doc([{"pus": ["rb"]}, "mov"], flag[b % 3], flag[c % 3]))
     if t == 1:
